@@ -184,7 +184,8 @@ def build_image(tools, img, cfg, recipe, blobdir, rnd, index_dirs=True):
 # 2 symlink of length a; 3 xattr (value length a) on a new file; 4 sparse file (hole of a blocks, then b bytes);
 # 5 extent files mixing written and unwritten extents that are logically and physically adjacent, in a needlessly deep tree (root split with the debugfs extent editor);
 # 6 split the extent-tree root of an existing template file (tree deeper than needed -> e2fsck offers to rebuild it);
-# 7 inode filler: use up (almost) all free inodes with directories and files spread over the groups, then free every third one and empty whole directory blocks
+# 7 inode filler: use up (almost) all free inodes with directories and files spread over the groups, then free every third one and empty whole directory blocks;
+#   one time in three instead: fill the inode tables of groups 0..g exactly up to the last inode of group g
 NAME_PREFIX = ['', '', '', '.', '..', '..a', '...', '-', '~', '#', '\xc3\xa9', '\xff\xfe']
 NKINDS = 8
 def extras_script(ops, blobdir, bs):
@@ -229,6 +230,17 @@ def extras_apply(tools, img, ops, blobdir, bs, extent_fs=True):
             import struct as _st
             with open(img, 'rb') as fh: fh.seek(1024 + 0x10); free = _st.unpack('<I', fh.read(4))[0]
         except Exception: continue
+        if b % 3 == 0:
+            # boundary fill: files created in / take inodes first-fit from group 0 upwards, so creating exactly as many files as groups 0..g have free inodes puts the last inode of
+            # group g into use; a few of the earliest are removed again so that the groups in front keep some free inodes
+            try:
+                from . import e4ref as _e4
+                _fs = _e4.FS(img); gds = _fs.gds(); g = a % max(1, _fs.ngroups - 1); nb = sum(gd.free_inodes for gd in gds[:g + 1]); _fs.f.close()
+            except Exception: continue
+            if not (4 <= nb <= 1500): continue
+            c = ['write /dev/null zb%d_%04d' % (i, k) for k in range(nb)] + ['rm zb%d_%04d' % (i, k) for k in range(1 + a % 5)]
+            tools.dbg(img, c, write=True, cpu=300)
+            continue
         n = min(free - (a % 4), 600)
         if n < 8: continue
         c = []; ndirs = max(2, n // 12); left = n - ndirs; names = []
